@@ -65,7 +65,10 @@ class ResolveOuterVars(ast.NodeTransformer):
                 if undefined:
                     res.append(asty.Global(node, names=list(undefined)))
                 if defined:
-                    res.append(asty.Nonlocal(node, names=list(defined)))
+                    # Keep the order of the declaration, so the output
+                    # doesn't depend on how the set happens to iterate.
+                    res.append(asty.Nonlocal(
+                        node, names=[name for name in node.names if name in defined]))
                 return res
             defined.update(has.intersection(undefined))
             undefined = [name for name in undefined if name not in has]
